@@ -274,6 +274,11 @@ var vpMethods = []struct {
 	{pb.AffinityConfig_BOUND, "nosuch"},
 	{pb.AffinityConfig_BIND, "nosuch"},
 	{pb.AffinityConfig_UNBIND, "nosuch"},
+	// malformed key locators (empty string, empty segments): extraction must fail, not crash
+	{pb.AffinityConfig_BOUND, ""},
+	{pb.AffinityConfig_BIND, "keys."},
+	{pb.AffinityConfig_UNBIND, "a..b"},
+	{pb.AffinityConfig_BOUND, ".keys"},
 }
 
 func vpMethodName(id int) string { return "/svc/m" + strconv.Itoa(id) }
@@ -1087,6 +1092,9 @@ func (r *vpRunner) genAndRun(g *vpRng, maxOps int, prop string) {
 				pi = g.intn(npk)
 			}
 			m := g.pick([]int64{0, 0, 1, 1, 2, 2, 2, 3, 2, 1, 4, 5, 6})
+			if g.intn(25) == 0 {
+				m = g.pick([]int64{7, 8, 9, 10})
+			}
 			hasctx := int64(1)
 			if g.intn(15) == 0 {
 				hasctx = 0
